@@ -791,6 +791,12 @@ def check_c14(res, tier, replay):
             for _ in range(2 if tier == 'quick' else 10):
                 o, regime = gen_ohlcv(rng, rng.randrange(12, 80))
                 cases.append((wname, [], [], o, regime))
+        for _ in range(4 if tier == 'quick' else 20):       # DEMA strategy whose DEMAs use two different EMA periods each
+            a, b, c2, d2 = (rng.randrange(1, 8) for _ in range(4))
+            if a + c2 > b + d2:
+                a, b, c2, d2 = b, a, d2, c2
+            o, regime = gen_ohlcv(rng, b + d2 + rng.randrange(3, 40))
+            cases.append(('Dema', [a, b, c2, d2], [], o, regime))
         for _ in range(2 if tier == 'quick' else 10):       # the bundled compound strategy (default periods: warm-up 33)
             o, regime = gen_ohlcv(rng, rng.randrange(45, 110))
             cases.append(('MacdRsi', [], [], o, regime))
@@ -804,7 +810,7 @@ def check_c14(res, tier, replay):
         zero_at = {i: z for i, z in enumerate(json.load(open(replay)).get('zero_dates', [])) if z is not None and z >= 0}
     rlines = ['r%d %s' % (i, strat_line(c[0], c[1], c[2], c[3]).replace('STRAT', 'REPORT', 1) if i not in zero_at else
                           strat_line(c[0], c[1], c[2], c[3]).replace('STRAT', 'REPORTZ', 1) + ' %d' % zero_at[i]) for i, c in enumerate(cases)]
-    slines = ['s%d %s' % (i, strat_line(c[0], c[1], c[2], c[3])) for i, c in enumerate(cases) if ':' not in c[0]]
+    slines = ['s%d %s' % (i, strat_line(c[0], c[1], c[2], c[3])) for i, c in enumerate(cases)]
     go = vlib.run_go(rlines + slines)
     bad = 0
     cells = set()
@@ -830,7 +836,7 @@ def check_c14(res, tier, replay):
             stats['columns'] += 1
             if len(vals) != len(dates):
                 problems.append('column %s has %d values for %d dates' % (cn, len(vals), len(dates)))
-        acts = parse_strat(go.get('s%d' % i, 'missing')) if ':' not in name else None
+        acts = parse_strat(go.get('s%d' % i, 'missing'))
         if not problems and d >= 0:
             for (cn, typ, vals) in cols:
                 if cn == 'Close' and [h2f(v) for v in vals] != o['c'][d:]:
